@@ -238,6 +238,7 @@ class Result:
         self.blocks = []
         self.mblocks = []
         self.div = None
+        self.pdiv = None
         self.error = None
 
 
